@@ -1,6 +1,6 @@
 import SamVerif.Props.C09
 /-! Axiom audit of every C09 property theorem (parsed by vlib/common.py). -/
-open SamVerif.Doc SamVerif.CommentQueue SamVerif.Imports SamVerif.Attach
+open SamVerif.Doc SamVerif.CommentQueue SamVerif.Imports SamVerif.Attach SamVerif.ExprDoc
 #print axioms layout_is_linearisation
 #print axioms layout_preserves_text
 #print axioms render_only_whitespace
@@ -29,3 +29,8 @@ open SamVerif.Doc SamVerif.CommentQueue SamVerif.Imports SamVerif.Attach
 #print axioms attach_same_text
 #print axioms attachLeft_stable
 #print axioms attachOuter_unstable_counterexample
+#print axioms printCE_wrapLeft
+#print axioms nf_wrapLeft
+#print axioms docOf_ok
+#print axioms expression_layout_text
+#print axioms expression_layout_width_irrelevant
